@@ -211,15 +211,55 @@ where
 {
     tr.push(Obs::Len(m(|| it.len())));
     for i in 0..st.len as usize {
-        let (back, skip) = Steps::decode(st.step(i));
-        let k = skip.unwrap_or(usize::MAX);
-        let y = match (back, skip) {
-            (false, Some(0)) => m(|| it.next()),
-            (true, Some(0)) => m(|| it.next_back()),
-            (false, _) => m(|| it.nth(k)),
-            (true, _) => m(|| it.nth_back(k)),
-        };
-        tr.push(Obs::Yield(y.map(&mut sink)));
+        let kind = st.step(i);
+        if let Some((_, want)) = Steps::short_circuit(kind) {
+            // counting predicates: true at the `want`-th element offered
+            let mut seen = 0usize;
+            match kind {
+                8 => {
+                    let y = m(|| it.find(|_| { seen += 1; seen == want }));
+                    tr.push(Obs::Yield(y.map(&mut sink)));
+                }
+                9 => {
+                    let y = m(|| it.rfind(|_| { seen += 1; seen == want }));
+                    tr.push(Obs::Yield(y.map(&mut sink)));
+                }
+                10 => {
+                    let r = m(|| it.position(|x| { seen += 1; sink(x); seen == want }));
+                    tr.push(Obs::Str(format!("{:?}", r)));
+                }
+                11 => {
+                    let r = m(|| it.rposition(|x| { seen += 1; sink(x); seen == want }));
+                    tr.push(Obs::Str(format!("{:?}", r)));
+                }
+                12 => {
+                    let r = m(|| it.any(|x| { seen += 1; sink(x); seen == want }));
+                    tr.push(Obs::Str(format!("{:?}", r)));
+                }
+                13 => {
+                    let r = m(|| it.all(|x| { seen += 1; sink(x); seen != want }));
+                    tr.push(Obs::Str(format!("{:?}", r)));
+                }
+                14 => {
+                    let r = m(|| it.try_fold(0usize, |acc, x| { sink(x); if acc + 1 == want { None } else { Some(acc + 1) } }));
+                    tr.push(Obs::Str(format!("{:?}", r)));
+                }
+                _ => {
+                    let r = m(|| it.try_rfold(0usize, |acc, x| { sink(x); if acc + 1 == want { None } else { Some(acc + 1) } }));
+                    tr.push(Obs::Str(format!("{:?}", r)));
+                }
+            }
+        } else {
+            let (back, skip) = Steps::decode(kind);
+            let k = skip.unwrap_or(usize::MAX);
+            let y = match (back, skip) {
+                (false, Some(0)) => m(|| it.next()),
+                (true, Some(0)) => m(|| it.next_back()),
+                (false, _) => m(|| it.nth(k)),
+                (true, _) => m(|| it.nth_back(k)),
+            };
+            tr.push(Obs::Yield(y.map(&mut sink)));
+        }
         let l = m(|| it.len());
         let h = m(|| it.size_hint());
         if h != (l, Some(l)) {
